@@ -114,6 +114,14 @@ class TOpt(Ty):
         return smt.opt_sort(self.inner.sort())
 
 
+class TStrList(Ty):
+    """a *local, never aliased* list of str modelled as a sequence value (the engine checks that the
+    name is only ever built up with list displays / extend / append and consumed by join)"""
+
+    def sort(self):
+        return smt.StrSeq
+
+
 class TFunc(Ty):
     """closure / lambda / bound generator: python-side only"""
 
@@ -131,6 +139,7 @@ class TConst(Ty):
 INT, BOOL, STR, REAL, NONE = TInt(), TBool(), TStr(), TReal(), TNone()
 ROW, FRAG, GAP = TRow(), TRow("frag"), TRow("gap")
 STRSEQ = TStrSeq()
+STRLIST = TStrList()
 
 
 class Val:
